@@ -273,6 +273,8 @@ DestInit(dk) ==
 \*                    "win"     - a contiguous window starting 3 elements into a larger buffer (w[3:3+n]);
 \*                    "chunk"   - the second of two equal pieces of a buffer of 2n elements (torch.chunk / np.split);
 \*                    "strided" - every second element of a buffer, starting at element 1 (must be made contiguous)
+\*                    "colmajor" - the buffer holds the elements in column-major (Fortran) order of the tensor's
+\*                                shape: a transposed / order="F" array; logical (row-major) order must come out
 Rep(kind, flav, field, offk, lenGiven, inner, cache, view) ==
   [kind |-> kind, flav |-> flav, field |-> field, offk |-> offk, lenGiven |-> lenGiven, inner |-> inner, cache |-> cache,
    view |-> view]
@@ -294,7 +296,7 @@ TorchOK == {"BFLOAT16", "BOOL", "COMPLEX128", "COMPLEX64", "FLOAT16", "FLOAT", "
             "FLOAT8E4M3FNUZ", "FLOAT8E5M2", "FLOAT8E5M2FNUZ", "INT16", "INT32", "INT64", "INT8", "UINT8",
             "UINT16", "UINT32", "UINT64", "FLOAT8E8M0", "INT2", "UINT2"}
 
-Views == {"own", "win", "chunk", "strided"}
+Views == {"own", "win", "chunk", "strided", "colmajor"}
 
 \* what a lazy tensor wraps
 InnerRep(inner, cls) ==
@@ -335,7 +337,7 @@ RepsOf(cls) == RepsOfT[cls]
 (***************************************************************************)
 (* What a representation stores, and what the library must derive from it  *)
 (***************************************************************************)
-NoStore == [codes |-> <<>>, start |-> 0, step |-> 1, bytes |-> <<>>, ints |-> <<>>, entries |-> <<>>,
+NoStore == [codes |-> <<>>, start |-> 0, step |-> 1, order |-> "C", bytes |-> <<>>, ints |-> <<>>, entries |-> <<>>,
             file |-> NoFile, off |-> 0, len |-> 0]
 
 \* all-zero / all-ones element pattern of a class
@@ -346,12 +348,28 @@ OnesPat(cls) == CASE SubByte(cls) -> 2 ^ Bits(cls) - 1 [] cls = "bool" -> <<1>> 
 \* first element (so that bytes taken from the start of the buffer are seen)
 Junk(t) == IF t.n > 0 /\ t.codes[1] = ZeroPat(t.cls) THEN OnesPat(t.cls) ELSE ZeroPat(t.cls)
 
+\* column-major layout of a tensor of shape ds: position k (0-based) of the buffer holds the element whose
+\* multi-index is UnravelF(k); its row-major (logical) position is RavelC of that multi-index
+RECURSIVE ProdSeq(_)
+ProdSeq(ds) == IF ds = <<>> THEN 1 ELSE Head(ds) * ProdSeq(Tail(ds))
+RECURSIVE UnravelF(_, _)
+UnravelF(k, ds) == IF ds = <<>> THEN <<>> ELSE <<k % Head(ds)>> \o UnravelF(k \div Head(ds), Tail(ds))
+RECURSIVE RavelC(_, _)
+RavelC(m, ds) == IF ds = <<>> THEN 0 ELSE Head(m) * ProdSeq(Tail(ds)) + RavelC(Tail(m), Tail(ds))
+RECURSIVE UnravelC(_, _)
+UnravelC(k, ds) == IF ds = <<>> THEN <<>> ELSE <<k \div ProdSeq(Tail(ds))>> \o UnravelC(k % ProdSeq(Tail(ds)), Tail(ds))
+RECURSIVE RavelF(_, _)
+RavelF(m, ds) == IF ds = <<>> THEN 0 ELSE Head(m) + Head(ds) * RavelF(Tail(m), Tail(ds))
+ToColMajor(codes, ds)   == [k \in 1..Len(codes) |-> codes[RavelC(UnravelF(k - 1, ds), ds) + 1]]
+FromColMajor(codes, ds) == [i \in 1..Len(codes) |-> codes[RavelF(UnravelC(i - 1, ds), ds) + 1]]
+
 \* the buffer behind a view, the element index where the tensor starts (0-based) and the element step
 ViewBase(v, t) ==
   LET j == Junk(t) n == t.n
   IN CASE v = "win"     -> [codes |-> Rpt(j, 3) \o t.codes \o Rpt(j, 2), start |-> 3, step |-> 1]
        [] v = "chunk"   -> [codes |-> Rpt(j, n) \o t.codes, start |-> n, step |-> 1]
        [] v = "strided" -> [codes |-> [i \in 1..(2 * n + 1) |-> IF i % 2 = 0 THEN t.codes[i \div 2] ELSE j], start |-> 1, step |-> 2]
+       [] v = "colmajor" -> [codes |-> ToColMajor(t.codes, t.dims), start |-> 0, step |-> 1]
        [] OTHER         -> [codes |-> t.codes, start |-> 0, step |-> 1]
 \* the n elements a view refers to
 Window(codes, start, step, n) == [i \in 1..n |-> codes[start + (i - 1) * step + 1]]
@@ -363,7 +381,8 @@ SExt8(bits, c) == IF c >= 2 ^ (bits - 1) THEN c + 256 - 2 ^ bits ELSE c
 Stored0(r, t, d) ==
   CASE r.kind = "array" /\ r.flav = "sbits" -> [NoStore EXCEPT !.codes = [i \in 1..t.n |-> SExt8(Bits(t.cls), t.codes[i])]]
     [] r.kind \in {"array", "torch"} ->
-         LET b == ViewBase(r.view, t) IN [NoStore EXCEPT !.codes = b.codes, !.start = b.start, !.step = b.step]
+         LET b == ViewBase(r.view, t) IN [NoStore EXCEPT !.codes = b.codes, !.start = b.start, !.step = b.step,
+                                                         !.order = IF r.view = "colmajor" THEN "F" ELSE "C"]
     [] r.kind = "packed" -> [NoStore EXCEPT !.bytes = Pack(t.cls, t.codes)]
     [] r.kind = "proto" ->
          (CASE r.field = "raw_data"    -> [NoStore EXCEPT !.bytes = Pack(t.cls, t.codes)]
@@ -378,9 +397,11 @@ Stored(rep, t, d) == Stored0(Base(rep, t.cls), t, d)
 
 \* bytes returned by tobytes() / written by tofile(); only for HasBytes classes
 Low(cls, codes) == IF SubByte(cls) THEN [i \in 1..Len(codes) |-> codes[i] % (2 ^ Bits(cls))] ELSE codes
+\* the logical (row-major) elements of an array-backed representation
+Elems(s, t) == IF s.order = "F" THEN FromColMajor(s.codes, t.dims) ELSE Window(s.codes, s.start, s.step, t.n)
 RBytes0(r, t, s) ==
   CASE r.kind \in {"array", "torch"} ->                                            \* window, mask, pack on demand
-         Pack(t.cls, Low(t.cls, Window(s.codes, s.start, s.step, t.n)))
+         Pack(t.cls, Low(t.cls, Elems(s, t)))
     [] r.kind = "packed" -> s.bytes
     [] r.kind = "proto" ->
          (CASE r.field = "raw_data"   -> s.bytes
@@ -392,7 +413,7 @@ RBytes(rep, t, d) == RBytes0(Base(rep, t.cls), t, Stored(rep, t, d))
 
 \* element patterns returned by numpy()
 RValues0(r, t, s) ==
-  CASE r.kind \in {"array", "torch"} -> Low(t.cls, Window(s.codes, s.start, s.step, t.n))
+  CASE r.kind \in {"array", "torch"} -> Low(t.cls, Elems(s, t))
     [] r.kind = "proto" /\ r.field = "string_data" -> s.entries
     [] OTHER -> Unpack(t.cls, RBytes0(r, t, s), t.n)                                 \* unpacks on demand
 
